@@ -9,6 +9,7 @@
 //! Workshop on Principles and Practice of Consistency for Distributed Data (2020), Article no. 5,
 //! pp. 1-6.
 
+use std::cmp::Ordering;
 use std::collections::{HashMap, HashSet};
 use std::fmt::Debug;
 use std::hash::Hash;
@@ -381,6 +382,25 @@ pub fn demote<ID: Eq + Hash, C: Conditions>(
     }
 }
 
+/// Tie-break used by `merge` when both counters of a member are equal: returns `true` if `a` is
+/// the lower of the two access levels.
+///
+/// The partial order of `Access` can't be used here as it is neither total nor antisymmetric
+/// when conditions are involved (which would make `merge` depend on the order of its arguments).
+/// Instead the access level is compared first and then the conditions, where an access without
+/// conditions is considered greater than one with conditions.
+fn merge_tie_break_less<C: PartialOrd>(a: &Access<C>, b: &Access<C>) -> bool {
+    match a.level.cmp(&b.level) {
+        Ordering::Less => true,
+        Ordering::Greater => false,
+        Ordering::Equal => match (&a.conditions, &b.conditions) {
+            (Some(a_conditions), Some(b_conditions)) => a_conditions < b_conditions,
+            (Some(_), None) => true,
+            (None, _) => false,
+        },
+    }
+}
+
 /// Merge two group states into one using a deterministic, conflict-free approach.
 ///
 /// Grow-only counters are used internally to track state changes; one counter for add / remove
@@ -417,7 +437,7 @@ pub fn merge<ID: Clone + Eq + Hash, C: Conditions>(
 
                 // If the access counters are the same, take the lower of the two access levels.
                 if member_state_1.access_counter == member_state.access_counter
-                    && member_state_1.access < member_state.access
+                    && merge_tie_break_less(&member_state_1.access, &member_state.access)
                 {
                     member_state.access = member_state_1.access;
                 }
